@@ -55,28 +55,38 @@ func (dp *DataProcessor) Process() {
 
 	// Main processing loop
 	for {
-		// Safely access dataChan using read lock
+		// The receive itself happens under the read lock: a buffer expansion drains the old channel
+		// into the new one under the write lock, and a row received here from the old channel in the
+		// middle of that migration would be processed before the older rows being moved.
 		dp.stream.dataChanMux.RLock()
 		currentDataChan := dp.stream.dataChan
-		dp.stream.dataChanMux.RUnlock()
 
 		// Check if dataChan is nil (stream has been stopped)
 		if currentDataChan == nil {
+			dp.stream.dataChanMux.RUnlock()
 			return
 		}
 
+		var data map[string]any
+		received := false
 		select {
-		case data, ok := <-currentDataChan:
+		case d, ok := <-currentDataChan:
 			if !ok {
 				// Channel is closed
+				dp.stream.dataChanMux.RUnlock()
 				return
 			}
-			dp.processItem(data)
+			data, received = d, true
 		case <-dp.stream.done:
 			// Received close signal
+			dp.stream.dataChanMux.RUnlock()
 			return
 		case <-ticker.C:
 			// Timer triggered, do nothing, just prevent CPU spinning
+		}
+		dp.stream.dataChanMux.RUnlock()
+		if received {
+			dp.processItem(data)
 		}
 	}
 }
